@@ -341,6 +341,17 @@ class Helper(object):
                 if all(stores.count(k) == 1 for k in al):
                     self.expr_only = True
                     self.expr_body = _Subst({}, al).visit(copy.deepcopy(body[-1].value))
+        if not self.expr_only and not hy.found and not fn.args.vararg and not fn.args.kwarg and not fn.args.kwonlyargs:
+            # a predicate written with plain assignments and `if c: return e` guards is one conditional expression
+            try:
+                from .paths import func_as_expr
+                e = func_as_expr(fn)
+            except Exception:
+                e = None
+            if e is not None and not any(isinstance(x, ast.Return) and x.value is None for x in ast.walk(fn)):
+                self.expr_only = True
+                self.expr_body = e
+                self.ok = True
 
 
 def _bind(helper, call):
